@@ -82,6 +82,12 @@ def event_of(o, via, eid):
             "res": {"ok": True, "v": {"idx": indices(o["mnemonic"])}}, "o": tab.rows}
 
 
+def _first_wallets(words):
+    """(in a forked child) the first new mnemonics of this process, by both entry points"""
+    from btc_hd_wallet import PaperWallet, bip39
+    return [bip39.mnemonic_from_entropy_bits(words * 32 // 3), PaperWallet.new_wallet(mnemonic_length=words).mnemonic]
+
+
 def run(ctx):
     rng = ctx.rng
     ctx.mc("Entropy", core.cfg_of("Entropy.cfg"), coverage=False, label="histories of Reseed / PrngDraw / New up to the step bound; OS symbols chosen by TLC")
@@ -191,6 +197,20 @@ def run(ctx):
             events.append(ev)
     finally:
         pyrandom.setstate(saved)
+    # processes FORKED from one that already has the library loaded (and has made wallets): the first wallet of every
+    # child, and the parent's next one, are all different - entropy is obtained when it is needed, not carried along
+    import multiprocessing as mp
+    for words in (12, 24):
+        with mp.get_context("fork").Pool(6) as pool:
+            kids = pool.map(_first_wallets, [words] * 6, chunksize=1)
+        mine = _first_wallets(words)
+        flat = [m for k in kids for m in k] + mine
+        ctx.evaluations += len(flat)
+        if len(set(flat)) != len(flat):
+            dup = [m for m in set(flat) if flat.count(m) > 1][0]
+            ctx.violation("new-mnemonic", "fresh-wallets-coincide-after-fork",
+                          "processes forked from one parent produced the same %d-word mnemonic %r" % (words, dup[:50]), {"mode": "fork", "words": words})
+    ctx.notes["forked_children_compared"] = 12
     rj = ctx.validate(MODULE, events, min_shard=100)
     core.report_rejects(ctx, events, rj, lambda e: "new %d-word mnemonic (%s), OS requests %s" % (
         e["inp"]["words"], e["inp"]["via"], [(r["src"], r["n"]) for r in e["requests"]]), lambda e, c: "new-mnemonic")
